@@ -14,5 +14,6 @@ go test -vet=off -count=1 ./$pkg -run "$re" -args -base $wt/.tbase > .demo_witho
 git apply MUTANT.patch
 echo "demo with change: exit $w (want !=0); without: exit $wo (want 0)"
 if [ "$3" = "suite" ]; then
-  go test -vet=off -count=1 ./store ./memcache ./quicklz ./cmem ./utils ./loghub -skip "$re" -args -base $wt/.tbase 2>&1 | tail -7
+  go test -vet=off -count=1 ./store -skip "$re" -args -base $wt/.tbase 2>&1 | tail -3
+  go test -vet=off -count=1 ./memcache ./quicklz ./cmem ./utils ./loghub 2>&1 | tail -6
 fi
